@@ -171,6 +171,13 @@ func (vc *VC) eval(x SExpr, env *Env) SpecVal {
 			specFail("type[%s]: %v", e.T, err)
 		}
 		return ghostVal(vc.enc.TypeConst(gt), "Type")
+	case SHeap:
+		gt, _, err := vc.w.resolveType(e.T, env.pkg)
+		if err != nil || gt == nil {
+			specFail("heap[%s]: %v", e.T, err)
+		}
+		h := vc.enc.HeapFor(gt)
+		return ghostVal(vc.heapGet(env.st, h), fmt.Sprintf("(Array Loc %s)", vc.enc.heaps[h]))
 	case SAddr:
 		v := vc.eval(e.X, env)
 		if v.Addr == "" {
